@@ -21,12 +21,105 @@ fn canon_line(line: &str) -> String {
     }
 }
 
+fn words(line: &str) -> Vec<&str> {
+    line.split_whitespace().collect()
+}
+
+fn guarded(f: impl FnOnce() -> String + panic::UnwindSafe) -> String {
+    match panic::catch_unwind(f) {
+        Ok(s) => s,
+        Err(e) => format!("panic {}", panic_site(&e)),
+    }
+}
+
+fn depfile_line(line: &str) -> String {
+    let bytes = unhex(line);
+    guarded(move || match n2::verif::depfile_parse(bytes) {
+        Ok(m) => {
+            let parts: Vec<String> = m
+                .iter()
+                .map(|(t, ds)| {
+                    format!(
+                        "{}:{}",
+                        hex(t),
+                        ds.iter().map(|d| hex(d)).collect::<Vec<_>>().join(",")
+                    )
+                })
+                .collect();
+            format!("ok {}", parts.join(";"))
+        }
+        Err(e) => format!("err {}", hex(e.as_bytes())),
+    })
+}
+
+fn showincludes_line(line: &str) -> String {
+    let bytes = unhex(line);
+    guarded(move || {
+        let (incs, out) = n2::verif::extract_showincludes(bytes);
+        format!(
+            "ok {}|{}",
+            incs.iter().map(|d| hex(d)).collect::<Vec<_>>().join(","),
+            hex(&out)
+        )
+    })
+}
+
+fn lastline_line(line: &str) -> String {
+    let bytes = unhex(line);
+    guarded(move || format!("ok {}", hex(n2::verif::find_last_line(&bytes))))
+}
+
+fn taskmsg_line(line: &str) -> String {
+    let w = words(line);
+    let msg = String::from_utf8(unhex(w[0])).expect("utf8");
+    let secs: usize = w[1].parse().unwrap();
+    let cols: usize = w[2].parse().unwrap();
+    guarded(move || format!("ok {}", hex(n2::verif::task_message(&msg, secs, cols).as_bytes())))
+}
+
+fn truncate_line(line: &str) -> String {
+    let w = words(line);
+    let msg = String::from_utf8(unhex(w[0])).expect("utf8");
+    let max: usize = w[1].parse().unwrap();
+    guarded(move || format!("ok {}", hex(n2::verif::truncate(&msg, max).as_bytes())))
+}
+
+fn bar_line(line: &str) -> String {
+    let w: Vec<usize> = words(line).iter().map(|x| x.parse().unwrap()).collect();
+    guarded(move || {
+        format!(
+            "ok {}",
+            hex(n2::verif::progress_bar([w[0], w[1], w[2], w[3], w[4], w[5]], w[6]).as_bytes())
+        )
+    })
+}
+
+fn dedup_line(line: &str) -> String {
+    // explicit id id id ...
+    let w: Vec<usize> = words(line).iter().map(|x| x.parse().unwrap()).collect();
+    guarded(move || {
+        let (ids, explicit) = n2::verif::remove_duplicates(w[1..].to_vec(), w[0]);
+        format!(
+            "ok {} {}",
+            explicit,
+            ids.iter().map(|x| x.to_string()).collect::<Vec<_>>().join(" ")
+        )
+    })
+}
+
 fn main() {
     let args: Vec<String> = std::env::args().collect();
     let suite = args.get(1).map(|s| s.as_str()).unwrap_or("");
     install_quiet_panic_hook();
     let f: fn(&str) -> String = match suite {
         "canon" => canon_line,
+        "depfile" => depfile_line,
+        "showincludes" => showincludes_line,
+        "lastline" => lastline_line,
+        "taskmsg" => taskmsg_line,
+        "truncate" => truncate_line,
+        "bar" => bar_line,
+        "dedup" => dedup_line,
         _ => {
             eprintln!("unknown suite {suite}");
             std::process::exit(2);
